@@ -49,6 +49,7 @@ ASSUMPTIONS = [
     "the subset relation is asserted only for chains of unit-step slices and ints: a (fused) slice with a non-unit step or a newaxis is not pushed into the read and legitimately reads whole blocks (class 'unpushable-slice-reads-beyond-prefix'); nor for empty results, which read one block to cut a 0-length piece from it (class 'empty-selection-reads-a-block')",
     "a request made with phase 'execute' includes the 0-size meta requests of the optimisation that compute() runs; they satisfy the same bounds",
     "sync scheduler",
+    "family numpy-scaled-limit lowers dask_array.io._from_array._NUMPY_SLICE_PUSHDOWN_NBYTES_LIMIT in-process from 64 MiB to 2048 bytes for the duration of a case (a harness-side rebinding of a module constant, no source change) so that the deferred-region branch, the eager-copy branch and the transition between them inside one chain of windows are reached with 40x40 arrays; the thorough tier also runs the unscaled family on 72 MB arrays",
 ]
 from vf import exclusions as _ex
 
@@ -531,24 +532,46 @@ def check(case, vals=None):
 # NumPy source above the eager-copy limit
 
 
-def large_strategy():
+SCALED_LIMIT = 2048  # bytes; see run_large
+
+
+def large_strategy(scaled=False):
+    """NumPy sources around the eager-copy limit.  ``scaled``: the module constant is lowered in-process to
+    SCALED_LIMIT so that both sides of the threshold (deferred region / eager copy) and the transition
+    between them inside one chain of windows are reached with 40x40 arrays instead of 72 MB ones."""
+
     @st.composite
     def strat(draw):
         D_ = D(draw)
-        n0, n1 = 3000, 3000
-        nsl = D_.weighted([(1, 1), (2, 3)])
+        if scaled:
+            n0 = n1 = D_.choice([40, 48])
+            off, chunks, rech = 8, [[16, 16], [-1, -1], [20, 12], [n0, 8]], [None, None, [12, 12], [-1, 16]]
+            nsl = D_.weighted([(1, 1), (2, 3), (3, 4), (4, 2)])
+        else:
+            n0, n1 = 3000, 3000
+            off, chunks, rech = 35, [[1000, 1000], [-1, -1], [1500, 700], [3000, 512]], [None, None, [750, 750], [-1, 1000]]
+            nsl = D_.weighted([(1, 1), (2, 3), (3, 2)])
         slices = []
         for _ in range(nsl):
-            slices.append([[D_.int(0, 35), -D_.int(1, 35)], [D_.int(0, 35), -D_.int(1, 35)]] if D_.chance(3, 4) else [[D_.int(0, 60), None], [None, None]])
-        return {
+            kind = D_.weighted([("both", 6), ("rows", 2), ("int", 1 if nsl >= 3 and slices else 0)])
+            if kind == "both":
+                slices.append([[D_.int(0, off), -D_.int(1, off)], [D_.int(0, off), -D_.int(1, off)]])
+            elif kind == "rows":
+                slices.append([[D_.int(0, 2 * off), None], [None, None]])
+            else:
+                slices.append([[D_.int(1, off), None], [None, None]])  # rows again, open-ended
+        case = {
             "kind": "numpy-large",
             "shape": [n0, n1],
-            "chunks": D_.choice([[1000, 1000], [-1, -1], [1500, 700], [3000, 512]]),
+            "chunks": D_.choice(chunks),
             "slices": slices,
-            "between": D_.choice([None, "T", "neg", "rechunk"]) if nsl == 2 else None,
-            "rechunk": D_.choice([None, None, [750, 750], [-1, 1000]]),
+            "between": D_.choice([None, "T", "neg", "rechunk"]) if nsl >= 2 else None,
+            "rechunk": D_.choice(rech),
             "lock": D_.weighted([("false", 4), ("true", 1)]),
         }
+        if scaled:
+            case["limit"] = SCALED_LIMIT
+        return case
 
     return strat()
 
@@ -558,9 +581,17 @@ def run_large(case):
 
     assert case.get("kind") == "numpy-large"
     n0, n1 = case["shape"]
-    assert n0 * n1 <= 12_000_000 and 1 <= len(case["slices"]) <= 2
-    fails, labs = [], ["numpy-large"]
+    assert n0 * n1 <= 12_000_000 and 1 <= len(case["slices"]) <= 4
+    import dask_array.io._from_array as _fa
+
+    limit = case.get("limit")
+    assert limit is None or (isinstance(limit, int) and limit >= 64)
+    fails, labs = [], ["numpy-large" if limit is None else "numpy-scaled-limit"]
     a = np.arange(n0 * n1, dtype="f8").reshape(n0, n1)
+    real_limit = _fa._NUMPY_SLICE_PUSHDOWN_NBYTES_LIMIT
+    if limit is not None:
+        _fa._NUMPY_SLICE_PUSHDOWN_NBYTES_LIMIT = limit
+    small = (11, 13) if limit is not None else (700, 900)
     try:
         y = da.from_array(a, chunks=tuple(case["chunks"]), lock=S.make_lock(case.get("lock", "false")))
         exp = a
@@ -571,7 +602,7 @@ def run_large(case):
             elif k == 1 and case.get("between") == "neg":
                 y, exp = -y, -exp
             elif k == 1 and case.get("between") == "rechunk":
-                y = y.rechunk((700, 900))
+                y = y.rechunk(small)
             y, exp = y[idx], exp[idx]
         if case.get("rechunk"):
             y = y.rechunk(tuple(case["rechunk"]))
@@ -581,10 +612,12 @@ def run_large(case):
             for node in opt.walk():
                 if type(node).__name__ == "FromArray":
                     reg = node.operand("_region")
+                    if reg is None and type(node.array) is np.ndarray and node.array.shape != (n0, n1):
+                        labs.append("numpy-eager-copy")
                     if reg is not None and type(node.array) is np.ndarray:
                         labs.append("numpy-large-region")
                         nbytes = int(np.prod(node._effective_shape)) * node.array.dtype.itemsize
-                        if nbytes <= LARGE_LIMIT:
+                        if nbytes <= (limit or LARGE_LIMIT):
                             labs.append("numpy-large-region-below-limit")
             for rule, before, after in recs:
                 if rule == "FromArray._simplify_up" and type(before).__name__ != "Rechunk" and before.array.operand("_region") is not None:
@@ -609,8 +642,11 @@ def run_large(case):
                 if why:
                     fails.append((f"large|values|{why.split(' ')[0]}", f"{why}; got[0,0]={got[0, 0] if got.size else None} exp[0,0]={exp[0, 0] if exp.size else None}"))
     finally:
+        _fa._NUMPY_SLICE_PUSHDOWN_NBYTES_LIMIT = real_limit
         a = y = exp = got = None
         gc.collect()
+    if len(case["slices"]) >= 3:
+        labs.append("numpy-region-three-windows")
     return fails, sorted(set(labs))
 
 
@@ -659,7 +695,7 @@ def run_shard(spec, seed):
 
         @hypothesis.seed(seed)
         @sett
-        @given(large_strategy())
+        @given(large_strategy(scaled=bool(spec.get("scaled"))))
         def body_large(case):
             fails, labs = run_large(case)
             col.case(case, nontrivial(case, labs), labs)
@@ -704,8 +740,9 @@ def plan(tier):
     specs = progrun.plan_cases(tier, 4800, 192000)
     for i, sp in enumerate(specs):
         sp["gen"] = "program" if i % 3 == 0 else "chain"
+    scale = float(os.environ.get("VERIF_SCALE", "1"))
+    specs.append({"cases": max(50, int((400 if tier == "quick" else 12000) * scale)), "large": True, "scaled": True})
     if tier == "thorough":
-        scale = float(os.environ.get("VERIF_SCALE", "1"))
         # <= 1% of the cases of the tier, on one shard (memory: ~220 MB while a case runs)
         specs.append({"cases": max(4, min(int(24 * scale), sum(s["cases"] for s in specs) // 100)), "large": True})
     return specs
@@ -730,4 +767,5 @@ _COMMON = [
     "adapter:2",
     "storage-attr:shards",
 ] + ["storage-grid:" + k for k in STORAGE_KINDS] + ["lock:" + k for k in ("false", "true", "threading")]
-REQUIRED_CLASSES = {"quick": list(_COMMON), "thorough": list(_COMMON) + ["numpy-large-region", "numpy-large-region-composed"]}
+_SCALED = ["numpy-scaled-limit", "numpy-large-region", "numpy-large-region-composed", "numpy-eager-copy", "numpy-region-three-windows"]
+REQUIRED_CLASSES = {"quick": list(_COMMON) + _SCALED, "thorough": list(_COMMON) + _SCALED + ["numpy-large"]}
